@@ -73,3 +73,18 @@ Theorem C12_ristretto_scalars_and_plaintexts :
   RT (fun m : bytes => length m = 30%nat) (fun m => m) rd_RP /\ PF (fun m : bytes => length m = 30%nat) (fun m => m) rd_RP.
 Proof. exact (conj rt_RX (conj pf_RX (conj rt_RP pf_RP))). Qed.
 Print Assumptions C12_ristretto_scalars_and_plaintexts.
+
+(* ristretto elements: the encoding depends only on the curve point (not on the projective representation the arithmetic
+   happens to produce), and a decoded element re-encodes to the bytes it came from — so equal group members serialise equal
+   and decode(encode) / encode(decode) are identities on everything that comes off the wire (Proofs/RistrettoEncode.v,
+   Proofs/RistrettoCanon.v). [sq_ok]: the encoder's inverse square root exists — true of every decoded point. *)
+From Strand Require Import Base.ZUtil Base.ZpField Base.Edwards Model.Ristretto Model.RBackend Proofs.CodecP Proofs.RistrettoGroup
+  Proofs.RistrettoCanon Proofs.RistrettoEncode.
+Theorem C12_ristretto_encoding_depends_on_the_point_only : forall (K : Kernel) P Q, valid P -> valid Q -> aff P = aff Q ->
+  (let '(x, y) := aff P in W1 x y = f0 \/ sq_ok (x, y)) -> compress K P = compress K Q.
+Proof. exact compress_aff. Qed.
+Print Assumptions C12_ristretto_encoding_depends_on_the_point_only.
+
+Theorem C12_ristretto_encode_decode : forall (K : Kernel) bs P, bytes_ok bs -> decompress K bs = Some P -> compress K P = bs.
+Proof. exact decompress_canonical. Qed.
+Print Assumptions C12_ristretto_encode_decode.
